@@ -29,7 +29,8 @@ RULE = ("plane: Hypothesis draws (now in 1990-2040 biased to New Year, Feb 28-Ma
         "LIST (raw_command), stat via MLST and the same against a server without MLSD/MLST; oracle: multiset of names, "
         "type, size, MLSx modify = UTC seconds of st_mtime, LIST time per the precision rule. Non-trivial = delta within "
         "3 days of the half-year switch, or crossing a year boundary, or Feb 29, or a listing with >= 3 entries; "
-        "distinct by hash of the case.")
+        "distinct by hash of the case. "
+        "dateline: enumerated (zone with a skipped calendar day | UTC) x (year before/after) x (inside/outside the half year) x a grid of 'now' values x distances 1.05-20 days from the boundary, same oracle as plane.")
 ASSUMPTIONS = [
     "the one-day window around now - half-year is excluded (the property excludes it: the year-less format is ambiguous there)",
     "LIST times are compared in the process-local time zone (client and server share it)",
@@ -350,5 +351,65 @@ def replay_modes(case):
         (fm + " 1 none none 5 Jan  1  2020 name" + (" -> target" if st_.S_ISLNK(case["mode"]) else "") + "\r\n").encode())
 
 
+# ---------------------------------------------------------------- zones whose calendar skipped a day (date line moves)
+DATELINE = {"Pacific/Kiritimati": (1995, 1996), "Pacific/Kwajalein": (1993, 1994), "Pacific/Apia": (2011, 2012), "UTC": (1995, 1996)}
+INSIDE = (1.05, 1.2, 1.6, 3.0, 20.0)  # days away from the half-year boundary (the excluded window is one day wide)
+
+
+def dateline_cases(tier):
+    step = 7 * 3600 + 13 * 60 if tier == "quick" else 3600 + 7 * 60
+    out = []
+    for zone, (y0, y1) in DATELINE.items():
+        for year in (y0, y1):
+            for side in (-1, 1):
+                out.append((zone, year, side, step))
+    return out
+
+
+def part_dateline(ctx):
+    for zone, year, side, step in dateline_cases(ctx.tier)[ctx.shard::ctx.nshards]:
+        set_zone(zone)
+        t0 = int(time.mktime((year, 1, 1, 0, 0, 0, 0, 0, -1)))
+        t1 = int(time.mktime((year + 1, 1, 1, 0, 0, 0, 0, 0, -1)))
+        bad = None
+        n = 0
+        for now in range(t0, t1, step):
+            for x in INSIDE:
+                mtime = now - int(H + side * x * DAY)
+                s = aioftp.Server.build_list_mtime(mtime, now)
+                got = aioftp.Client.parse_ls_date(s, now=datetime.datetime.fromtimestamp(now))
+                exp, recent = expected_ls(mtime, now)
+                n += 1
+                if got != exp and bad is None:
+                    sym = "year" if got[4:] == exp[4:] else ("precision" if got[:8] == exp[:8] else "date")
+                    bad = dict(zone=zone, now=now, mtime=mtime, days_from_half_year_boundary=side * x, ls_text=s, got=got, expected=exp,
+                               now_local=time.strftime("%Y-%m-%d %H:%M", time.localtime(now)), kind="recent" if recent else "old", sym=sym)
+        ctx.evaluations += n
+        ctx.count(("dateline", zone, year, side), zone != "UTC", sample=dict(zone=zone, year=year, side="inside" if side < 0 else "outside",
+                                                                             pairs=n, first_mismatch=bad),
+                  classes=["dateline_" + zone])
+        if bad:
+            ctx.fail(f"C07/dateline/{zone}/{bad['kind']}/{bad['sym']}", dict(kind="dateline", case=[zone, year, side, step]), bad)
+
+
+def replay_dateline(case):
+    from vlib.runner import Ctx
+    zone, year, side, step = case["case"]
+    ctx = Ctx(PROPERTY, "dateline", "quick", 0, 0, 1)
+    set_zone(zone)
+    t0 = int(time.mktime((year, 1, 1, 0, 0, 0, 0, 0, -1)))
+    t1 = int(time.mktime((year + 1, 1, 1, 0, 0, 0, 0, 0, -1)))
+    for now in range(t0, t1, step):
+        for x in INSIDE:
+            mtime = now - int(H + side * x * DAY)
+            s = aioftp.Server.build_list_mtime(mtime, now)
+            got = aioftp.Client.parse_ls_date(s, now=datetime.datetime.fromtimestamp(now))
+            exp, recent = expected_ls(mtime, now)
+            if got != exp:
+                sym = "year" if got[4:] == exp[4:] else ("precision" if got[:8] == exp[:8] else "date")
+                raise Violation(f"C07/dateline/{zone}/{'recent' if recent else 'old'}/{sym}",
+                                dict(zone=zone, now=now, mtime=mtime, ls_text=s, got=got, expected=exp))
+
+
 def plan(tier):
-    return [("plane", 8), ("e2e", 8), ("modes", 7)]
+    return [("plane", 8), ("e2e", 8), ("modes", 7), ("dateline", 8)]
